@@ -1,2 +1,68 @@
-(** C03 — unordered super-reconciliation (statements are added as proofs land). *)
-From SR Require Import Model.Uspfs.
+(** C03 — unordered super-reconciliation (USPFS / SuperDTL) returns a minimum-cost solution.
+    Statements only; proofs are [exact <lemma of Proofs/UspfsProofs.v, Proofs/UspfsFinal.v>].
+
+    [uspfs S c rp extended O]: model of [_uspfs] (extended = true: SuperDTL, false: base USPFS).
+    [uvalid S O t]: t has the shape of O, leaves on their species with their (sorted) syntenies,
+    species of S only, no invalid event, every family of a node is in its parent's content or gained
+    at that node.  [ucost c O t]: the evaluator's total cost (event costs + sloss per charged lossy
+    edge, C06).  [uall_sol]: valid (base variant: on the LCA species mapping).  [usol]: valid and
+    canonical (each node holds its required families or its parent's families plus its own gains).
+    [ucoherent c]: 0 <= floss, 0 <= sloss, spe + sloss <= dup + 2*floss — implied by the region
+    spe + 2*sloss <= dup + 2*floss of the property (F-COHERENCE). *)
+From Coq Require Import List Bool ZArith NArith.
+From SR Require Import Base.PathB Base.Ext Model.Entry Model.Recon Model.LcaRec Model.Thl Model.Uspfs
+  Proofs.PathFacts Proofs.ReconProofs Proofs.LabelCostProofs Proofs.ThlProofs Proofs.UspfsProofs Proofs.UspfsFinal.
+Import ListNotations.
+Local Open Scope Z_scope.
+
+(* gain node of a family = LCA of the leaves carrying it; LCA set = least content compatible with the leaves *)
+Theorem C03_gain_lca_sets_spec : forall O p o, osub O p = Some o ->
+  exists u, usub (annotate_top O) p = Some u /\ oshape o u /\
+    ssorted (u_gain u) /\ ssorted (u_lca u) /\
+    (forall f, In f (u_gain u) <-> is_lca_of_carriers O f p) /\
+    (forall f, In f (u_lca u) <->
+       (exists q, carrier_at O f q /\ anc p q = true) /\
+       (exists g, is_lca_of_carriers O f g /\ anc g p = true)).
+Proof. exact gain_lca_sets_spec. Qed.
+
+(* the returned cost is the minimum over ALL valid labellings and species mappings (base: LCA mapping) *)
+Theorem C03_superdtl_optimum : forall S c rp extended O E,
+  nn (c_hgt c) -> ucoherent c -> leaves_ok S O -> rp <> RNONE ->
+  uspfs S c rp extended O = Some E ->
+  (exists t, uall_sol S extended O t /\ val E = ucost c O t) /\
+  (forall t, uall_sol S extended O t -> ele (val E) (ucost c O t)).
+Proof. exact superdtl_optimum. Qed.
+
+(* every returned solution is valid and of minimum cost among all valid labellings *)
+Theorem C03_superdtl_solutions_optimal : forall S c rp extended O E t,
+  nn (c_hgt c) -> ucoherent c -> leaves_ok S O -> rp <> RNONE ->
+  uspfs S c rp extended O = Some E -> In t (tags E) ->
+  uall_sol S extended O t /\ forall t', uall_sol S extended O t' -> ele (ucost c O t) (ucost c O t').
+Proof. exact superdtl_solutions_optimal. Qed.
+
+(* canonical labellings suffice: any valid labelling can be made canonical on the same mapping at no greater cost *)
+Theorem C03_canonical_suffices : forall S c O t, 0 <= c_sloss c -> uvalid S O t ->
+  exists t', uvalid S O t' /\ ucanon_under (ototal O) [] O t' /\ forget t' = forget t /\
+             ele (ucost c O t') (ucost c O t).
+Proof. exact canonical_suffices. Qed.
+
+(* the property's region implies the one the proofs need *)
+Theorem C03_region : forall c, 0 <= c_floss c -> 0 <= c_sloss c ->
+  c_spe c + 2 * c_sloss c <= c_dup c + 2 * c_floss c -> ucoherent c.
+Proof. intros c Hf Hs H. unfold ucoherent. repeat split; auto. Lia.lia. Qed.
+
+(* the table holds the clean recurrence *)
+Theorem C03_table_value : forall S c rp extended total, nn (c_hgt c) -> forall o, rp <> RNONE ->
+  forall k, val (uread (utab S c rp extended total o) k) = UTval S c extended total o k.
+Proof. exact utable_value. Qed.
+
+Print Assumptions C03_gain_lca_sets_spec.
+Print Assumptions C03_superdtl_optimum.
+Print Assumptions C03_superdtl_solutions_optimal.
+Print Assumptions C03_canonical_suffices.
+Print Assumptions C03_region.
+Print Assumptions C03_table_value.
+
+(* outside the region optimiser and evaluator differ at a single node; non-vacuity example *)
+Example C03_incoherent_refuted := uincoherent_step.
+Example C03_example := uspfs_example.
